@@ -916,7 +916,9 @@ func (w *c36World) flush(sel func(vpkt) bool, reverse bool) {
 		w.inflight = append(append([]vpkt{}, w.inflight[:idx]...), w.inflight[idx+1:]...)
 		w.deliverOne(p, p.From)
 	}
-	w.t.Fatalf("c36: network did not become quiet: %v (history %v)", w.inflight, w.hist)
+	// not quiet after 200 deliveries (never on the unchanged tree; an edit that makes the wrong host answer forever gets
+	// here): leave the rest in flight, the history continues
+	w.st.inc("flush_bound_hit")
 }
 
 func c36Between(a, b netip.AddrPort) func(vpkt) bool {
@@ -1004,18 +1006,30 @@ func (w *c36World) apply(ev string) {
 		}
 		w.afterClose = true
 		w.collect()
-	case "from": // from:<addr> — P's next packet towards me (handshake or data) arrives from this source address
+	case "from": // from:<addr> — P's packets towards me arrive from this source address: whatever P has in flight to me
+		// (e.g. its handshake answer), otherwise its next packet (handshake if it has no tunnel, else data)
 		x := c36AP(strings.TrimPrefix(ev, "from:"))
 		w.peer(1)
-		w.p.conn.take()
-		w.p.tunSend(vUDPPacket(c36PVpn, c36MeVpn, 2000, 1000, []byte("c36-from-p")))
-		out := w.p.takeOut()
-		if len(out) == 0 {
-			vtime.Advance(vtime.Second)
-			w.p.hsTick()
-			out = w.p.takeOut()
+		var out, keep []vpkt
+		for _, pk := range w.inflight {
+			if pk.From == c36PUDP && pk.To == c36MeUDP {
+				out = append(out, pk)
+			} else {
+				keep = append(keep, pk)
+			}
 		}
-		w.p.tun.take()
+		w.inflight = keep
+		if len(out) == 0 {
+			w.p.conn.take()
+			w.p.tunSend(vUDPPacket(c36PVpn, c36MeVpn, 2000, 1000, []byte("c36-from-p")))
+			out = w.p.takeOut()
+			if len(out) == 0 {
+				vtime.Advance(vtime.Second)
+				w.p.hsTick()
+				out = w.p.takeOut()
+			}
+			w.p.tun.take()
+		}
 		for _, pk := range out {
 			if pk.To != c36MeUDP {
 				continue
@@ -1047,6 +1061,12 @@ func (w *c36World) apply(ev string) {
 		}
 	case "net":
 		w.flush(func(vpkt) bool { return true }, false)
+	case "hop": // one hop: what is in flight now is delivered, the answers stay in flight
+		cur := w.inflight
+		w.inflight = nil
+		for _, pk := range cur {
+			w.deliverOne(pk, pk.From)
+		}
 	case "netrev":
 		w.flush(func(vpkt) bool { return true }, true)
 	case "drop":
@@ -1097,7 +1117,7 @@ func (w *c36World) menu(thorough bool) []string {
 		out = append(out, "dns")
 	}
 	if len(w.inflight) > 0 {
-		out = append(out, "net", "netrev", "drop")
+		out = append(out, "net", "hop", "netrev", "drop")
 	}
 	return out
 }
@@ -1268,6 +1288,7 @@ type c36WorkerOut struct {
 	Depth   int       `json:"max_depth"`
 	Capped  bool      `json:"capped"`
 	DepthCapped bool  `json:"depth_capped"`
+	PassesDone  int   `json:"passes_done"`
 	Samples [][]string `json:"samples"`
 	Broken  string    `json:"broken"`
 	CPU     float64   `json:"cpu_s"`
@@ -1296,56 +1317,69 @@ func c36RunCfg(t *testing.T, c *mc.Check, cfg c36Cfg, depth int, deadline time.T
 		return out
 	}
 
-	seen := map[string]bool{}
+	// Iterative deepening over all seeds: pass d searches every seed prefix to depth d (re-executing the shallower
+	// levels costs a few percent), so a time cap only ever cuts the deepest pass short and every seed is treated alike.
+	all := map[string]bool{}
 	seeds := c36Seeds(cfg, thorough)
-	for si, prefix := range seeds {
-		left := time.Until(deadline)
-		if left <= 0 {
-			out.Capped = true
-			break
-		}
-		slice := time.Now().Add(left / time.Duration(len(seeds)-si))
-		stop := func() bool { return time.Now().After(slice) }
-		d := depth
-		if !thorough && si >= 5 && d > 1 {
-			d-- // quick: the deeper seeds are searched one event shallower
-		}
-		res := mc.BFSReplay(c, mc.BFSConfig[string]{
-			MaxDepth: d, Workers: 1, Stop: stop,
-			Label: func(e string) string { return e },
-			Run: func(hist []string) (string, []string) {
-				w := c36NewWorld(t, cfg, seed, st)
-				defer w.close()
-				for _, e := range prefix {
-					w.apply(e)
+	stop := func() bool { return time.Now().After(deadline) }
+	for pass := 1; pass <= depth && !out.Capped; pass++ {
+		seen := map[string]bool{} // pruning across the seeds of one pass
+		out.DepthCapped = false
+		for si, prefix := range seeds {
+			if stop() {
+				out.Capped = true
+				break
+			}
+			d := pass
+			if !thorough && si >= 5 {
+				d-- // quick: the deeper seeds are searched one event shallower
+			}
+			res := mc.BFSReplay(c, mc.BFSConfig[string]{
+				MaxDepth: d, Workers: 1, Stop: stop,
+				Label: func(e string) string { return e },
+				Run: func(hist []string) (string, []string) {
+					w := c36NewWorld(t, cfg, seed, st)
+					defer w.close()
+					for _, e := range prefix {
+						w.apply(e)
+					}
+					for _, e := range hist {
+						w.apply(e)
+					}
+					k := w.key()
+					all[k] = true
+					if len(hist) > 0 && seen[k] {
+						return k, nil
+					}
+					seen[k] = true
+					return k, w.menu(thorough)
+				},
+			})
+			out.Trans += res.Transitions
+			if res.MaxDepth+len(prefix) > out.Depth {
+				out.Depth = res.MaxDepth + len(prefix)
+			}
+			if stop() {
+				out.Capped = true // time budget ran out inside this pass
+			} else if !res.Exhaustive {
+				out.DepthCapped = true // frontier not empty at the depth bound
+			}
+			if pass == depth || out.Capped {
+				for _, s := range res.Deepest {
+					if len(out.Samples) < 4 {
+						out.Samples = append(out.Samples, append(append([]string{"[" + cfg.String() + "]"}, prefix...), s...))
+					}
 				}
-				for _, e := range hist {
-					w.apply(e)
-				}
-				k := w.key()
-				if len(hist) > 0 && seen[k] {
-					return k, nil
-				}
-				seen[k] = true
-				return k, w.menu(thorough)
-			},
-		})
-		out.Trans += res.Transitions
-		if res.MaxDepth+len(prefix) > out.Depth {
-			out.Depth = res.MaxDepth + len(prefix)
-		}
-		if time.Now().After(slice) {
-			out.Capped = true // the time slice of this seed ran out
-		} else if !res.Exhaustive {
-			out.DepthCapped = true // frontier not empty at the depth bound
-		}
-		for _, s := range res.Deepest {
-			if len(out.Samples) < 4 {
-				out.Samples = append(out.Samples, append(append([]string{"[" + cfg.String() + "]"}, prefix...), s...))
+			}
+			if out.Capped {
+				break
 			}
 		}
+		if !out.Capped {
+			out.PassesDone = pass
+		}
 	}
-	out.States = int64(len(seen))
+	out.States = int64(len(all))
 	out.Nviol = st.nviol
 	return out
 }
@@ -1462,6 +1496,7 @@ func TestVerifC36(t *testing.T) {
 	maxDepth := 0
 	perCfg := map[string]any{}
 	timeCapped := []string{}
+	minPass := depth
 	depthCapped := 0
 	for k := range pick {
 		if errs[k] != "" {
@@ -1489,7 +1524,10 @@ func TestVerifC36(t *testing.T) {
 		if o.DepthCapped {
 			depthCapped++
 		}
-		perCfg[o.Cfg] = fmt.Sprintf("states=%d transitions=%d time_capped=%v cpu_s=%.1f", o.States, o.Trans, o.Capped, o.CPU)
+		perCfg[o.Cfg] = fmt.Sprintf("states=%d transitions=%d depth_completed=%d time_capped=%v cpu_s=%.1f", o.States, o.Trans, o.PassesDone, o.Capped, o.CPU)
+		if o.PassesDone < minPass {
+			minPass = o.PassesDone
+		}
 		for _, s := range o.Samples {
 			c.Sample(s)
 		}
@@ -1505,6 +1543,7 @@ func TestVerifC36(t *testing.T) {
 	c.Set("traces_validated_against_impl", trans)
 	c.Set("max_depth", maxDepth)
 	c.Set("bfs_depth_per_seed", depth)
+	c.Set("bfs_depth_completed_in_every_configuration", minPass)
 	c.Set("configurations", len(pick))
 	c.Set("configuration_alphabet", len(all))
 	c.Set("per_configuration", perCfg)
